@@ -8,13 +8,14 @@
 package quiesce
 
 import (
-	"sync/atomic"
+	"fmt"
 	"os"
 	"regexp"
 	"runtime"
 	"sort"
 	"strconv"
 	"strings"
+	"sync/atomic"
 	"syscall"
 	"time"
 	"unsafe"
@@ -150,7 +151,15 @@ func init() {
 // Quiet reports whether every goroutine other than the caller is parked, in
 // Rounds successive dumps with identical (id, state, top frame) sets. It
 // returns the last dump.
-func Quiet() (bool, []G) {
+func Quiet() (bool, []G) { return QuietUnless(nil) }
+
+// QuietUnless is Quiet for a caller that waits for something: stop reports
+// whether that something has happened. It is consulted during the long part of
+// the decision only (the persistence rounds below); when it says yes the answer
+// is "not quiet" at once - the caller re-examines its condition - instead of
+// after a tenth of a second. It can only end the deliberation early with "not
+// quiet", never make a process look quiet.
+func QuietUnless(stop func() bool) (bool, []G) {
 	self := selfID()
 	a := Snapshot()
 	sa, ok := sig(a, self)
@@ -184,11 +193,34 @@ func Quiet() (bool, []G) {
 			// network at least every 10 ms (sysmon): the picture has to stay
 			// the same, with no unread bytes anywhere, for a dozen such periods.
 			atomic.AddInt64(&PersistEntered, 1)
+			if f := os.Getenv("VERIF_PERSIST_PROFILE"); f != "" {
+				// measurement aid: who pays for the persistence rounds
+				pc := make([]uintptr, 12)
+				n := runtime.Callers(2, pc)
+				fr := runtime.CallersFrames(pc[:n])
+				var names []string
+				for {
+					x, more := fr.Next()
+					names = append(names, x.Function[strings.LastIndex(x.Function, "/")+1:])
+					if !more || len(names) >= 7 {
+						break
+					}
+				}
+				if fh, err := os.OpenFile(f, os.O_APPEND|os.O_CREATE|os.O_WRONLY, 0644); err == nil {
+					fmt.Fprintln(fh, strings.Join(names, " < "))
+					fh.Close()
+				}
+			}
 			for r := 0; r < PersistRounds; r++ {
 				if socketsPending() {
 					return false, a
 				}
-				time.Sleep(10 * time.Millisecond)
+				for k := 0; k < 10; k++ {
+					if stop != nil && stop() {
+						return false, a
+					}
+					time.Sleep(time.Millisecond)
+				}
 				b := Snapshot()
 				sb, ok := sig(b, self)
 				if !ok || sb != sa {
@@ -243,7 +275,18 @@ func Await(ch <-chan struct{}, watchdog time.Duration) (Outcome, []G) {
 			return CondMet, nil
 		case <-t.C:
 		}
-		q, gs := Quiet()
+		got := false
+		q, gs := QuietUnless(func() bool {
+			select {
+			case <-ch:
+				got = true
+			default:
+			}
+			return got
+		})
+		if got {
+			return CondMet, nil
+		}
 		if q {
 			select {
 			case <-ch:
@@ -331,7 +374,7 @@ func WaitUntil(cond func() bool, watchdog time.Duration) (Outcome, []G) {
 			continue
 		}
 		if spins%8 == 0 {
-			q, gs := Quiet()
+			q, gs := QuietUnless(cond)
 			if q {
 				if cond() {
 					return CondMet, nil
